@@ -1261,6 +1261,7 @@ def reload_requests(spec, case, ref, impl, tables):
 
 
 _shrunk = [0]
+_shrunk_place = [0]
 
 
 def reload_findings(spec, case, kind, steps, verdicts):
@@ -1295,6 +1296,43 @@ def shrink_reload(ctx, spec, case, ref, key):
     small = ddmin(case['acts'], fails, max_tests=60)
     del _laws[:]
     return dict(case, acts=small)
+
+
+def place_requests(case, steps):
+    """-> [(step index, `judge_place` request)] for every call of the history that met no injected I/O failure"""
+    out = []
+    for i, rec in enumerate(steps):
+        act = case['acts'][i - 1] if i > 0 else {'a': 'start', 'fault': case.get('fault')}
+        if act['a'] == 'wipe' or act.get('fault') is not None or rec['values'] is None:
+            continue
+        out.append((i, {'p': 'C17', 'k': 'judge_place', 'eq': _PLACE['eq'], 'mod': MODNAME, 'new': new_bytes(rec['data']).hex(),
+                        'raised': rec['raised'], 'ops': len(rec['evs']), 'tree': rec['tree']}))
+    return out
+
+
+def place_finding(case, full, steps, where, a):
+    rec = steps[where]
+    what = 'module creation' if where == 0 else f'step {where} ({case["acts"][where - 1]["a"]})'
+    found = dict((tuple(c), h) for c, h in rec['tree']).get(tuple(a['file']))
+    return {'sig': 'C17:not-saved-in-place',
+            'what': f'{what} met no I/O failure and ' + (f'raised {rec["exc"]}' if rec['raised'] else 'returned')
+                    + f' after {len(rec["evs"])} file operations ({[e[:2] for e in rec["evs"]][:3]} ...); '
+                    + ('its file does not exist' if found is None else 'its file does not hold the snapshot of the current values'
+                       if found != new_bytes(rec['data']).hex() else 'its file is in place')
+                    + (f', other files: {a["stray"]}' if a['stray'] else '') + f' - {place_text(rec)}',
+            'case': dict(full, case=case, where=['step', where])}
+
+
+def shrink_place(ctx, spec, case):
+    """smallest sub-history (faults dropped) in which the Lean monitor still rejects what a call left at the place of the file"""
+    def verdicts(acts):
+        c = dict(case, acts=acts, fault=None)
+        impl = run_impl(spec, c, trials=False)
+        rq = place_requests(c, impl['steps'])
+        return c, impl['steps'], [(i, a) for (i, _), a in zip(rq, ctx.driver.batch([r for _, r in rq]) if rq else []) if not a['ok']]
+    plain = [{k: v for k, v in a.items() if k != 'fault'} for a in case['acts']]
+    small = ddmin(plain, lambda acts: bool(verdicts(acts)[2]), max_tests=40)
+    return verdicts(small)
 
 
 def judge_failed_startup(ctx, res, spec, case, ref, first, full):
@@ -1366,7 +1404,11 @@ def place_text(rec):
 
 def _check_case(ctx, res, spec, case, quick_crash, kind):
     rng = ctx.rng
+    # the reference module (what Module.__init__ makes of the class and the configuration: an input of the model) is created
+    # at the plain default place, not at the place under test
+    use_place(ctx, 'eq')
     ref = restart(spec, None, None)
+    use_place(ctx, case.get('eq', 'eq'))
     if ref.get('module') is None:
         raise RuntimeError(f'reference module cannot be created: {ref["exc"]} {spec}')
     impl = run_impl(spec, case)
@@ -1413,16 +1455,12 @@ def _check_case(ctx, res, spec, case, quick_crash, kind):
     # ---- where the file lives: every call that met no injected I/O failure (start-up, every action) must not fail, and if it
     # touched the file system the snapshot of the current values is in place - at the path the Lean model derives from equipment
     # id and module name, whatever directories existed - and nothing else is in the tree
-    for i, rec in enumerate(steps):
-        act = case['acts'][i - 1] if i > 0 else {'a': 'start', 'fault': case.get('fault')}
-        if act['a'] == 'wipe' or act.get('fault') is not None:
-            continue
-        reqs.append({'p': 'C17', 'k': 'judge_place', 'eq': _PLACE['eq'], 'mod': MODNAME, 'new': new_bytes(rec['data']).hex(),
-                     'raised': rec['raised'], 'ops': len(rec['evs']), 'tree': rec['tree']})
+    for i, rq in place_requests(case, steps):
+        reqs.append(rq)
         tags.append(('place', i))
         res.traces += 1
-        if rec['evs']:
-            res.count('place.saved.dirs-before=%s/%s' % (sum(rec['pre_dirs']), len(rec['pre_dirs'])))
+        if steps[i]['evs']:
+            res.count('place.saved.dirs-before=%s/%s' % (sum(steps[i]['pre_dirs']), len(steps[i]['pre_dirs'])))
     # ---- fork trials
     for j, t in enumerate(impl['trials']):
         new = new_bytes(t['data'])
@@ -1552,7 +1590,7 @@ def _check_case(ctx, res, spec, case, quick_crash, kind):
                                   'model': model_steps[bad] if bad < len(model_steps) else None,
                                   'impl': impl_obs[bad] if bad < len(impl_obs) else None})
     # ---- verdicts of the monitors
-    bad_reloads = []
+    bad_reloads, bad_places = [], []
     for (tag, where), a in zip(tags[1:], answers[1:]):
         if tag == 'snap' and a['bad'] is not None:
             rec = steps[where[1]] if where[0] == 'step' else impl['trials'][where[1]]['first']
@@ -1569,17 +1607,7 @@ def _check_case(ctx, res, spec, case, quick_crash, kind):
                                            f'neither the old nor the new snapshot: {(snap or b"<no file>")[:80]!r}',
                                    'case': dict(full, where=where)})
         elif tag == 'place' and not a['ok']:
-            rec = steps[where]
-            what = 'module creation' if where == 0 else f'step {where} ({case["acts"][where - 1]["a"]})'
-            found = dict((tuple(c), h) for c, h in rec['tree']).get(tuple(a['file']))
-            res.violations.append({'sig': 'C17:not-saved-in-place',
-                                   'what': f'{what} met no I/O failure and '
-                                           + (f'raised {rec["exc"]}' if rec['raised'] else 'returned')
-                                           + f' after {len(rec["evs"])} file operations ({[e[:2] for e in rec["evs"]][:3]} ...); '
-                                           + ('its file does not exist' if found is None else 'its file does not hold the snapshot of the current values'
-                                              if found != new_bytes(rec['data']).hex() else 'its file is in place')
-                                           + (f', other files: {a["stray"]}' if a['stray'] else '') + f' - {place_text(rec)}',
-                                   'case': dict(full, where=['step', where])})
+            bad_places.append((where, a))
         elif tag == 'litter' and not a['ok']:
             rec = steps[where[1]] if where[0] == 'step' else impl['trials'][where[1]]['first']
             res.violations.append({'sig': 'C17:tmp-left-behind', 'what': f'after the save returned the directory holds {rec["listing"]}',
@@ -1611,6 +1639,14 @@ def _check_case(ctx, res, spec, case, quick_crash, kind):
                                    'case': full})
         elif tag == 'reload' and (a['thisrun'] or a['restores']):
             bad_reloads.append((where[1], a))
+    if bad_places:
+        small, sm_steps, verdicts = case, steps, bad_places
+        if _shrunk_place[0] < 3:
+            _shrunk_place[0] += 1
+            c2, st2, v2 = shrink_place(ctx, spec, case)
+            if v2:
+                small, sm_steps, verdicts = c2, st2, v2
+        res.violations.extend(place_finding(small, full, sm_steps, i, a) for i, a in verdicts)
     if bad_reloads:
         small, sm_steps, verdicts = case, steps, bad_reloads
         if _shrunk[0] < 3:
